@@ -116,6 +116,33 @@ theorem applyContextRule_eq (recurse : Ctx → Nat → M (Ctx × Bool)) (c : Ctx
     rw [e2 R hR]
     simp only [bind, Except.bind, contextFinish]
 
+/-- **Context format 3 (inline in `applySubtable`) = coverage test, match_input with reads, then the same flag call and action** -/
+theorem context3_eq (recurse : Ctx → Nat → M (Ctx × Bool)) (nf : Bool) (c : Ctx) (cov : Cov) (restCovs : List Cov)
+    (lookups : List Rec) :
+    applySubtable recurse nf c (.context3 (cov :: restCovs) lookups) = (do
+      let cur ← get c.buf.info c.buf.idx
+      match cov.index (cur.gid % 65536) with
+      | none => pure (c, false)
+      | some _ =>
+        matchInputI c restCovs.length (fun g i => nthCov restCovs i g) [0, 0, 0, 0] >>=
+          contextFinish recurse c restCovs.length lookups) := by
+  unfold applySubtable
+  cases get c.buf.info c.buf.idx with
+  | error e => rfl
+  | ok cur =>
+    simp only [bind, Except.bind]
+    cases cov.index (cur.gid % 65536) with
+    | none => rfl
+    | some i =>
+      simp only []
+      obtain ⟨e1, e2⟩ := erase_ok (matchInputI_erase c restCovs.length (fun g i => nthCov restCovs i g) [0, 0, 0, 0])
+      cases hR : matchInputI c restCovs.length (fun g i => nthCov restCovs i g) [0, 0, 0, 0] with
+      | error e => rw [e1 e hR]
+      | ok R =>
+        rw [e2 R hR]
+        simp only [contextFinish]
+        cases hok : R.r.ok <;> rfl
+
 /-- one ligature of a LigatureSet (the closure `firstRule` runs in `applySubtable (.ligature ..)`) -/
 def ligatureRule (c : Ctx) (cl : List Nat × Nat) : M (Ctx × Bool) := do
   if cl.1.isEmpty then
@@ -231,8 +258,7 @@ def backtrackLen (b : Buf) : Nat := if b.haveOutput then b.outLen else b.idx
 
 /-- what a read of a chain rule's matching phase may be -/
 def ChainCovered (c : Ctx) (m : ChainM) (x : Rd) : Prop :=
-  (∃ i, x = .inp i ∧ c.buf.idx ≤ i ∧ i < c.buf.len ∧
-      (¬ (m.verdict = .inputFail ∧ m.R.why = .ligComp) → i < m.endIndex)) ∨
+  (∃ i, x = .inp i ∧ c.buf.idx ≤ i ∧ i < c.buf.len ∧ i < m.endIndex) ∨
   (∃ j, x = .out j ∧ (m.verdict = .backFail ∨ m.verdict = .matched) ∧ m.startIndex ≤ j ∧ j < backtrackLen c.buf) ∨
   (∃ j, x = .lig j ∧ j < c.buf.outLen)
 
@@ -248,7 +274,7 @@ theorem chainMatchI_span (c : Ctx) (nBack nIn nAhead : Nat) (fBack fIn fAhead : 
   cases hR : matchInputI c nIn fIn [0, 0, 0, 0] with
   | error e => simp [hR, bind, Except.bind] at h
   | ok R =>
-    obtain ⟨r1, r2, r3, r4, r5⟩ := matchInputI_span c nIn fIn _ R hR hidx
+    obtain ⟨r1, r2, r4, r5⟩ := matchInputI_span c nIn fIn _ R hR hidx
     simp only [hR, bind, Except.bind] at h
     cases hok : R.r.ok with
     | false =>
@@ -260,18 +286,15 @@ theorem chainMatchI_span (c : Ctx) (nBack nIn nAhead : Nat) (fBack fIn fAhead : 
         cases hw : R.why with
         | matched => exact absurd hw hnm
         | tooLong => rw [(r2 hw).2]; simp; omega
-        | ligComp => rw [r3 hw]; simp; omega
-        | iter => have := (r4 (Or.inr hw)).2; exact Nat.max_le.mpr ⟨this, by omega⟩
+        | ligComp => have := (r4 (by simp [hw])).2; exact Nat.max_le.mpr ⟨this, by omega⟩
+        | iter => have := (r4 (by simp [hw])).2; exact Nat.max_le.mpr ⟨this, by omega⟩
       · intro x hx
         rcases r5 x hx with ⟨i, a1, a2, a3, a4⟩ | hj
-        · refine Or.inl ⟨i, a1, a2, a3, ?_⟩
-          intro hn
-          simp only [true_and] at hn
-          exact Nat.lt_of_lt_of_le (a4 hn) (Nat.le_max_left _ _)
+        · exact Or.inl ⟨i, a1, a2, a3, Nat.lt_of_lt_of_le a4 (Nat.le_max_left _ _)⟩
         · exact Or.inr (Or.inr hj)
     | true =>
       have hwm : R.why = .matched := r1.mp hok
-      obtain ⟨q1, q2⟩ := r4 (Or.inl hwm)
+      obtain ⟨q1, q2⟩ := r4 (by simp [hwm])
       simp only [hok, Bool.not_true, Bool.false_eq_true, if_false] at h
       cases hA : matchLookaheadI c nAhead fAhead R.r.endPos with
       | error e => simp [hA] at h
@@ -283,7 +306,7 @@ theorem chainMatchI_span (c : Ctx) (nBack nIn nAhead : Nat) (fBack fIn fAhead : 
           intro x hx
           rcases List.mem_append.mp hx with hx | hx
           · rcases r5 x hx with ⟨i, a1, a2, a3, a4⟩ | hj
-            · exact Or.inl ⟨i, a1, a2, a3, by have := a4 (by simp [hwm]); omega⟩
+            · exact Or.inl ⟨i, a1, a2, a3, by omega⟩
             · exact Or.inr hj
           · obtain ⟨i, hi, rfl⟩ := List.mem_map.mp hx
             have := l3 i hi
@@ -296,7 +319,7 @@ theorem chainMatchI_span (c : Ctx) (nBack nIn nAhead : Nat) (fBack fIn fAhead : 
           refine ⟨rfl, by simp [hok], by simp only; omega, l2, fun _ => by simp only; omega, by simp, ?_⟩
           intro x hx
           rcases hin x hx with ⟨i, a1, a2, a3, a4⟩ | hj
-          · exact Or.inl ⟨i, a1, a2, a3, fun _ => a4⟩
+          · exact Or.inl ⟨i, a1, a2, a3, a4⟩
           · exact Or.inr (Or.inr hj)
         | true =>
           simp only [Bool.not_true, Bool.false_eq_true, if_false] at h
@@ -324,7 +347,7 @@ theorem chainMatchI_span (c : Ctx) (nBack nIn nAhead : Nat) (fBack fIn fAhead : 
               rw [e3, e4]
               rcases List.mem_append.mp hx with hx | hx
               · rcases hin x hx with ⟨i, a1, a2, a3, a4⟩ | hj
-                · exact Or.inl ⟨i, a1, a2, a3, fun _ => a4⟩
+                · exact Or.inl ⟨i, a1, a2, a3, a4⟩
                 · exact Or.inr (Or.inr hj)
               · obtain ⟨j, hj, rfl⟩ := List.mem_map.mp hx
                 exact Or.inr (Or.inl ⟨j, rfl, e2, k2 j hj⟩)
